@@ -395,9 +395,45 @@ func stageLifecycleRules(c *core.Ctx, s *Stage, o lifecycleOpts) {
 		c.Ok("single-closer", label, owner.fn.Pos(), "closed by "+owner.name)
 		// exactly once on every exit, after the owner's last send, never on a looping segment
 		okClose := true
+		// close-then-drain: the owner closes the channel once on its way into a loop (after wg.Wait - the ordering of
+		// the senders is the business of no-send-after-close) and afterwards only receives from it
+		drain := false
+		{
+			nIn, good := 0, true
+			for _, p := range owner.an.AllPaths() {
+				cl, sd := closesOn(p, k), sendsOn(p, k)
+				if p.From == nil && p.Exit == ir.ExitNone {
+					if len(cl) == 1 {
+						nIn++
+						for _, e := range sd {
+							if e.idx > cl[0].idx {
+								good = false
+							}
+						}
+					} else if len(cl) > 1 {
+						good = false
+					}
+				}
+				if p.From != nil && (len(cl) > 0 || len(sd) > 0) {
+					good = false
+				}
+			}
+			if good && nIn > 0 {
+				// every way into a loop carries the close
+				for _, p := range owner.an.AllPaths() {
+					if p.From == nil && p.Exit == ir.ExitNone && len(closesOn(p, k)) != 1 {
+						good = false
+					}
+				}
+				drain = good
+			}
+		}
 		for _, p := range owner.an.AllPaths() {
 			cl := closesOn(p, k)
 			sd := sendsOn(p, k)
+			if drain && (p.From != nil || p.Exit == ir.ExitNone) {
+				continue // closed on the way in; nothing but receives afterwards (established above)
+			}
 			if p.Exit == ir.ExitReturn {
 				if len(cl) != 1 {
 					okClose = false
@@ -760,6 +796,8 @@ func hasCancellationPoint(p *ir.Path) bool {
 		switch {
 		case st.Kind == ir.KRecv && st.CommaOk && isInputChan(st.A[0]):
 			return true
+		case st.Kind == ir.KRecv && st.CommaOk && closedBeforeLoop[st.Instr]:
+			return true // range over a channel the goroutine itself closed ahead of the loop: ends when drained
 		case st.Kind == ir.KSelect && doneArm(st) >= 0:
 			return true
 		case isCatchRole(st):
@@ -776,6 +814,9 @@ func classifyBlocking(c *core.Ctx, s *Stage, pr *proc, p *ir.Path, i int) (verdi
 	case ir.KRecv:
 		if isInputChan(st.A[0]) {
 			return "ok", "receive from the stage's input (ends when the input closes)"
+		}
+		if closedBefore(pr.an, st) {
+			return "ok", "receive from a channel this goroutine has closed before (drains what is buffered, then ends)"
 		}
 		if why := accountedReceive(s, pr, st); why == "" {
 			return "ok", "accounted receive: as many sends completed before (ordered by wg.Wait) as receives follow"
@@ -943,9 +984,11 @@ func accountedReceive(s *Stage, pr *proc, st *ir.Step) string {
 	if wait == nil || !(instrDominates(wait.Instr, st.Instr) || wait.Instr.Parent() != st.Instr.Parent() && precededOnPaths(pr.an, st.Instr, isWgWait)) {
 		return "no wg.Wait dominating the receive"
 	}
-	// number of receives: trip count of the innermost loop (or 1)
+	// number of receives: trip count of the innermost loop (or 1) - or "until drained" when this goroutine closed the
+	// channel before (after the Wait): then exactly what was sent is received, however many that is
 	var nRecv *ir.Term = ir.Const("1")
-	if h := innermostHeader(st.Instr.Block()); h != nil {
+	drain := closedBefore(pr.an, st)
+	if h := innermostHeader(st.Instr.Block()); h != nil && !drain {
 		cl := countedLoop(pr.an, h)
 		if cl == nil || cl.Trip == nil {
 			return "receive inside a loop that is not counted"
@@ -991,6 +1034,9 @@ func accountedReceive(s *Stage, pr *proc, st *ir.Step) string {
 	}
 	if sent == nil {
 		return "nobody sends on the channel"
+	}
+	if drain {
+		return ""
 	}
 	if !ir.Same(sent, nRecv) {
 		if a, ok := sent.IntConst(); ok {
@@ -1592,4 +1638,20 @@ func catchFalseExits(c *core.Ctx, procs []*proc) {
 			}
 		}
 	}
+}
+
+// closedBeforeLoop: receive instructions found (by closedBefore) to read a channel their goroutine closed earlier.
+var closedBeforeLoop = map[ssa.Instruction]bool{}
+
+// closedBefore: on every path to the receive st, the same goroutine closed that very channel before.
+func closedBefore(an *ir.Analysis, st *ir.Step) bool {
+	if st == nil || st.Instr == nil || len(st.A) == 0 {
+		return false
+	}
+	ch := st.A[0]
+	ok := precededOnPaths(an, st.Instr, func(x *ir.Step) bool { return x.Kind == ir.KClose && len(x.A) > 0 && ir.Same(x.A[0], ch) })
+	if ok {
+		closedBeforeLoop[st.Instr] = true
+	}
+	return ok
 }
